@@ -1,14 +1,15 @@
 // client: the lock-based wrappers — guarded, guarded_opt, shared_guarded, shared_guarded_opt,
 // ordered_guarded, atomic_guarded — over mutex / timed_mutex / shared_mutex / shared_timed_mutex.
 //
-// config  = <wrapper>:<mutex>:<enabled>     wrapper ∈ g go sg sgo og ag ; mutex ∈ m tm sm stm ; enabled ∈ 1 0
+// config  = <wrapper>:<mutex>:<enabled>[:d]  (d = use the (bool) constructor of go/sgo)   wrapper ∈ g go sg sgo og ag ; mutex ∈ m tm sm stm ; enabled ∈ 1 0
 // ops     = <acq>[variant][!k]  or  <whole>[=v][!k]
 //   acq   : L lock | T try_lock | Tf try_lock_for | Tu try_lock_until
 //           S lock_shared | Sc const lock() | St try_lock_shared | Sf try_lock_shared_for | Su try_lock_shared_until
 //   variant (handle life cycle): '' use+destroy | k unlock()+destroy | m move-construct | a move-assign both ways
 //   whole : ld load | st=v store | as=v operator= | cv operator T | md modify | rd read | xc=v exchange | ce=e/d compare_exchange
 //   !k    : the k-th user-code invocation inside the op throws (fault injection)
-// markers: call/ret/exc <op>; acq <X|S> <b|t|f|u>; got <slot> <0|1>; hd/hu/hmc/hma <slots>; he [<bool>]
+// markers: call/ret/exc <op>; acq <X|S> <b|t|f|u>; got <slot> <0|1>; hd/hu/hmc/hma <slots>; he [<bool>];
+//          hfree = by the handle semantics of C01/C08 no handle of this thread owns the lock at this point
 #include "gmlc/libguarded/atomic_guarded.hpp"
 #include "gmlc/libguarded/guarded.hpp"
 #include "gmlc/libguarded/guarded_opt.hpp"
@@ -60,10 +61,10 @@ void session(AcqFn acquire, bool exclusive, char variant)
             (void)h->get();
         } else {
             if (exclusive) {
-                long v = h->get();
+                long v = (*h).get();  // operator* and operator-> both in use
                 h->set(v + 1);
             } else {
-                (void)h->get();
+                (void)(*h).get();
             }
         }
     };
@@ -72,6 +73,7 @@ void session(AcqFn acquire, bool exclusive, char variant)
         verif::emit("hu a");
         a->unlock();
         verif::emit(std::string("he ") + (static_cast<bool>(*a) ? "1" : "0"));
+        verif::emit("hfree");  // per C08 nothing owns the lock after unlock()
     } else if (variant == 'm') {
         verif::emit("hmc a b");
         b.emplace(std::move(*a));
@@ -83,6 +85,7 @@ void session(AcqFn acquire, bool exclusive, char variant)
         verif::emit("hd b");
         b.reset();
         verif::emit("he");
+        verif::emit("hfree");  // the only owner (b) is gone
     } else if (variant == 'a') {
         verif::emit("hmc a b");
         b.emplace(std::move(*a));  // b owns, a is a husk
@@ -94,6 +97,7 @@ void session(AcqFn acquire, bool exclusive, char variant)
         verif::emit("hma b a");
         *a = std::move(*b);  // husk onto owning: a releases the lock
         verif::emit("he");
+        verif::emit("hfree");  // a's ownership ended at the assignment, b was moved from: nobody owns the lock
         verif::emit("hd b");
         b.reset();
         verif::emit("he");
@@ -105,6 +109,8 @@ void session(AcqFn acquire, bool exclusive, char variant)
         a.reset();
         verif::emit("he");
     }
+    // spec-level ownership (C01/C08): every handle of this session has been destroyed
+    verif::emit("hfree");
 }
 
 struct OpSpec {
@@ -248,6 +254,29 @@ void do_op(W& w, const std::string& text)
                     p.set(v + 1);
                 });
                 done = true;
+            } else if (o.name == "mv") {
+                // the value-returning overload of modify
+                long seen = -1;
+                long r = w.modify([&seen](Pay& p) {
+                    vpay::user_call();
+                    long v = p.get();
+                    seen = v;
+                    p.set(v + 1);
+                    return v;
+                });
+                if (r != seen) {
+                    verif::fail("modify returned " + std::to_string(r) + " but its functor returned " + std::to_string(seen));
+                }
+                done = true;
+            } else if (o.name == "rv") {
+                // the void overload of read
+                long seen = -1;
+                w.read([&seen](const Pay& p) {
+                    vpay::user_call();
+                    seen = p.get();
+                });
+                result = std::to_string(seen);
+                done = true;
             } else if (o.name == "rd") {
                 long r = w.read([](const Pay& p) {
                     vpay::user_call();
@@ -307,13 +336,17 @@ verif::Result run_with(W& w, const Script& sc)
 }
 
 template <class M>
-verif::Result exec_m(const std::string& wk, bool enabled, const Script& sc)
+verif::Result exec_m(const std::string& wk, bool enabled, bool defctor, const Script& sc)
 {
     if (wk == "g") {
         guarded<Pay, M> w(0L);
         return run_with<WK::g, guarded<Pay, M>, M>(w, sc);
     }
     if (wk == "go") {
+        if (defctor) {
+            guarded_opt<Pay, M> w(enabled);  // the (bool) constructor: T default-constructed
+            return run_with<WK::go, guarded_opt<Pay, M>, M>(w, sc);
+        }
         guarded_opt<Pay, M> w(enabled, 0L);
         return run_with<WK::go, guarded_opt<Pay, M>, M>(w, sc);
     }
@@ -322,6 +355,10 @@ verif::Result exec_m(const std::string& wk, bool enabled, const Script& sc)
         return run_with<WK::sg, shared_guarded<Pay, M>, M>(w, sc);
     }
     if (wk == "sgo") {
+        if (defctor) {
+            shared_guarded_opt<Pay, M> w(enabled);
+            return run_with<WK::sgo, shared_guarded_opt<Pay, M>, M>(w, sc);
+        }
         shared_guarded_opt<Pay, M> w(enabled, 0L);
         return run_with<WK::sgo, shared_guarded_opt<Pay, M>, M>(w, sc);
     }
@@ -340,18 +377,19 @@ verif::Result exec(const Script& sc, const verif::Config& cfg)
     std::string wk = parts[0];
     std::string mk = parts.size() > 1 ? parts[1] : "m";
     bool enabled = parts.size() > 2 ? parts[2] != "0" : true;
+    bool defctor = parts.size() > 3 && parts[3] == "d";
     verif::emit("cfg lockfam " + wk + " " + mk + " " + (enabled ? "1" : "0"));
     vpay::unprotected() = !enabled;
     if (mk == "m") {
-        return exec_m<std::mutex>(wk, enabled, sc);
+        return exec_m<std::mutex>(wk, enabled, defctor, sc);
     }
     if (mk == "tm") {
-        return exec_m<std::timed_mutex>(wk, enabled, sc);
+        return exec_m<std::timed_mutex>(wk, enabled, defctor, sc);
     }
     if (mk == "sm") {
-        return exec_m<std::shared_mutex>(wk, enabled, sc);
+        return exec_m<std::shared_mutex>(wk, enabled, defctor, sc);
     }
-    return exec_m<std::shared_timed_mutex>(wk, enabled, sc);
+    return exec_m<std::shared_timed_mutex>(wk, enabled, defctor, sc);
 }
 
 std::vector<std::string> ops_for(const std::string& wk, const std::string& mk, bool faults)
@@ -409,10 +447,14 @@ std::vector<std::string> ops_for(const std::string& wk, const std::string& mk, b
         for (int k = 0; k < 3; ++k) {
             ops.push_back("md");
             ops.push_back("rd");
+            ops.push_back("mv");
+            ops.push_back("rv");
         }
         if (faults) {
             ops.push_back("md!1");
             ops.push_back("rd!1");
+            ops.push_back("mv!1");
+            ops.push_back("rv!1");
         }
     }
     if (wk == "ag") {
@@ -443,7 +485,7 @@ Script gen(Rng& r, int size)
     std::string mk = r.pick(mks);
     bool opt = (wk == "go" || wk == "sgo");
     bool enabled = !(opt && r.chance(1, 4));
-    s.config = wk + ":" + mk + ":" + (enabled ? "1" : "0");
+    s.config = wk + ":" + mk + ":" + (enabled ? "1" : "0") + ((opt && r.chance(1, 3)) ? ":d" : "");
     auto ops = ops_for(wk, mk, true);
     int nthreads = 2 + r.below(2 + size);
     for (int t = 0; t < nthreads; ++t) {
@@ -482,6 +524,11 @@ int main(int argc, char** argv)
                 std::reverse(rev.begin(), rev.end());
                 s2.threads.push_back(rev);
                 directed.push_back(s2);
+                if ((wk == "go" || wk == "sgo") && mk == "stm") {
+                    Script s3 = s2;  // the (bool) constructor
+                    s3.config += ":d";
+                    directed.push_back(s3);
+                }
             }
         }
     }
